@@ -1,5 +1,6 @@
 import Pm.Daemon
 import Pm.Dev2Proof
+import Pm.Dev2Walk
 import Pm.InterpSends
 /-! Helper lemmas for C05 (one device cannot disturb the others).
 
@@ -315,12 +316,10 @@ theorem DevFrame.of_core {d d' : Dev} (h : core d' = core d) : DevFrame d d' := 
 
 theorem finishConnectOne_core (c : CS) : core (finishConnectOne c).1.dev = core c.dev := by
   unfold finishConnectOne; grind [core]
-theorem connectOne_core (c : CS) : core (connectOne c).1.dev = core c.dev := by
-  have := finishConnectOne_core
-  unfold connectOne; grind [core]
-theorem tcpConnect_core (c : CS) : core (tcpConnect c).1.dev = core c.dev := by
-  have := connectOne_core
-  unfold tcpConnect; grind [core]
+theorem ConnFrame.core {d d' : Dev} (h : ConnFrame d d') : core d' = core d := by
+  simp only [Pm.Dev2.core, h.plugs, h.scripts, h.args, h.acts]
+theorem connectOne_core (c : CS) : core (connectOne c).1.dev = core c.dev := (connectOne_frame c).dev.core
+theorem tcpConnect_core (c : CS) : core (tcpConnect c).1.dev = core c.dev := (tcpConnect_frame c).dev.core
 theorem pipeConnect_core (c : CS) : core (pipeConnect c).1.dev = core c.dev := by
   unfold pipeConnect; grind [core]
 
@@ -384,14 +383,12 @@ theorem telnetFilter_core (d : Dev) (bs : Bytes) : core (telnetFilter d bs) = co
   unfold telnetFilter; grind [core]
 
 /-- the failed-connect clean-up inside the write half of `_handle_ready_device` -/
-def hrClose (c : CS) : CS :=
-  match c.dev.fd with
-  | some fd => { c with sys := c.sys ++ [.close fd], dev := { c.dev with fd := none, curAddr := false, conn := 0 } }
-  | none => { c with dev := { c.dev with curAddr := false, conn := 0 } }
+def hrClose (c : CS) : CS := finishConnectFail c
 
 /-- `_handle_ready_device` cut in pieces: the write half (returns the state, ioerr, and "skip the read") -/
 def hrWrite (c : CS) : CS × Bool × Bool :=
   if c.dev.conn == 1 then
+    if c.dev.isPipe then ({ c with sys := c.sys ++ [.abort "assert finish_connect != NULL"], aborted := true }, false, true) else
     let r := finishConnectOne c
     let c2 := if r.2 then r.1 else hrClose r.1
     if c2.dev.conn == 0 then (c2, true, true)
@@ -433,15 +430,16 @@ theorem enqueueLogin_core_congr {d d' : Dev} (h : core d' = core d) : core (enqu
   obtain ⟨h1, h2, h3, h4⟩ := h
   simp only [core, enqueueLogin, loginAction, h1, h2, h3, h4]
 
-theorem hrClose_core (c : CS) : core (hrClose c).dev = core c.dev := by
-  unfold hrClose; grind [core]
+theorem hrClose_core (c : CS) : core (hrClose c).dev = core c.dev := (finishConnectFail_frame c).dev.core
 
 theorem hrWrite_core (c : CS) :
     core (hrWrite c).1.dev = core c.dev ∨ core (hrWrite c).1.dev = core (enqueueLogin c.dev) := by
   have h1 := finishConnectOne_core c
   unfold hrWrite
   split
-  · dsimp only
+  · split
+    · exact Or.inl rfl
+    dsimp only
     generalize finishConnectOne c = r at *
     have h2 : core (if r.2 = true then r.1 else hrClose r.1).dev = core c.dev := by
       split
@@ -551,7 +549,7 @@ theorem failAll_frame (Q : Bytes → Bool) (C L : Nat → Prop) (rest : List Act
       simp only [List.mem_map, List.mem_filter] at hx
       obtain ⟨b, ⟨hb, _⟩, rfl⟩ := hx
       simp [outCid] at hc; subst hc; exact (hrest b hb).1
-  have hr := reconnectDev_devFrame { c with dev := { c.dev with acts := [] } } tmo
+  have hr := reconnectDev_devFrame { c with dev := { c.dev with acts := [], xmStr := none, xmResult := false, xmUsed := false } } tmo
   unfold failAll
   dsimp only
   split
@@ -609,7 +607,7 @@ theorem onRun_frame (Q : Bytes → Bool) (C L : Nat → Prop) (k : CS → Oracle
     · exact ⟨hplugs, hscripts, hout.append hrout, hstore⟩
     · split
       · split
-        · have := hk { c with dev := { r.dev with acts := rest, loggedIn := r.dev.loggedIn || a'.com == 0, statActions := r.dev.statActions + 1 } }
+        · have := hk { c with dev := { r.dev with acts := rest, loggedIn := r.dev.loggedIn || a'.com == 0, statActions := r.dev.statActions + 1, xmStr := none, xmResult := false, xmUsed := false } }
             r.oracle ((out ++ r.out) ++ (if a'.clientId != 0 then [Out.finish a'.clientId .success] else [])) tmo
             (hQr _ rfl) hrest ((hout.append hrout).append (by
               intro x hx cid hc
@@ -827,7 +825,7 @@ def onRunOk (k : CS → Oracle → List Out → Option Time → PA) (rest : List
   let a' := advance r.act
   if a'.exec.isEmpty then
     let fin := if a'.clientId != 0 then [Out.finish a'.clientId .success] else []
-    let dev := { r.dev with acts := rest, loggedIn := r.dev.loggedIn || a'.com == 0, statActions := r.dev.statActions + 1 }
+    let dev := { r.dev with acts := rest, loggedIn := r.dev.loggedIn || a'.com == 0, statActions := r.dev.statActions + 1, xmStr := none, xmResult := false, xmUsed := false }
     k { c with dev := dev } r.oracle (out ++ fin) tmo
   else k { c with dev := { r.dev with acts := a' :: rest } } r.oracle out tmo
 
